@@ -1,9 +1,10 @@
 (* C16 model runner.  Requests (one per line, tokens separated by blanks):
-     resolve <seed> <cut> PROG     resolve_cut with the executable oracle [seed_oracle seed]
-     errset PROG                   every outcome of resolve_order over all orders of the functions (<= 6)
+     impl PROG                     resolve_impl: the resolver with the order the code uses (sorted by name)
+     resolve <seed> PROG           resolve with the executable oracle [seed_oracle seed] (any other order)
+     oldcut <cut> PROG             the resolver with the constant limit it had before (resolve_cut, sorted order)
      wf PROG                       the property's precondition
      order <seed> PROG             ordered_funcs
-   PROG  := N <k> {name nin variadic}*k  F <k> {name <np> param*np <ne> EVENT*ne}*k  M <ne> EVENT*ne
+   PROG  := N <k> {name nin variadic isfunc}*k  F <k> {name <np> param*np <ne> EVENT*ne}*k  M <ne> EVENT*ne
    EVENT := u name ty | c name <na> ARG*na        ARG := v name | e <ne> EVENT*ne
    names are hex ("-" = empty), ty is 0 (unknown) 1 (scalar) 2 (array). *)
 open Model
@@ -41,9 +42,9 @@ let rec p_names n toks =
 let rec p_natives n toks =
   if n = 0 then ([], toks) else
   match toks with
-  | nm :: nin :: va :: r ->
+  | nm :: nin :: va :: fn :: r ->
       let (l, r) = p_natives (n - 1) r in
-      ({ n_name = bytes_of_hex nm; n_in = z_of_string nin; n_variadic = bool_of_string va } :: l, r)
+      ({ n_name = bytes_of_hex nm; n_in = z_of_string nin; n_variadic = bool_of_string va; n_func = bool_of_string fn } :: l, r)
   | _ -> failwith "native eof"
 
 let rec p_funcs n toks =
@@ -83,6 +84,7 @@ let err_string = function
   | ECallLocal f -> "calllocal " ^ hx f
   | EUndefined f -> "undefined " ^ hx f
   | ETooManyArgs f -> "toomanyargs " ^ hx f
+  | ENotFunc f -> "notfunc " ^ hx f
   | EUse (a, v, b) -> Printf.sprintf "use %s %s %s" (ty_name a) (hx v) (ty_name b)
   | EPassVar (a, v, b) -> Printf.sprintf "passvar %s %s %s" (ty_name a) (hx v) (ty_name b)
   | EPassExpr -> "passexpr"
@@ -126,15 +128,14 @@ let rec perms = function
            List.map (fun p -> x :: p) (perms rest)) l
 
 let handle = function
-  | "resolve" :: seed :: cut :: toks ->
+  | "impl" :: toks ->
+      let p = p_prog toks in res_string p (resolve_impl p)
+  | "resolve" :: seed :: toks ->
       let p = p_prog toks in
-      res_string p (resolve_cut (nat_of_int (int_of_string cut)) (seed_oracle (nat_of_int (int_of_string seed))) p)
-  | "errset" :: toks ->
+      res_string p (resolve (seed_oracle (nat_of_int (int_of_string seed))) p)
+  | "oldcut" :: cut :: toks ->
       let p = p_prog toks in
-      let names = List.map (fun fd -> fd.f_name) p.p_funcs in
-      if List.length names > 6 then "toolarge" else
-      let outs = List.map (fun o -> res_string p (resolve_order cutoff o p)) (perms names) in
-      String.concat " | " (List.sort_uniq compare outs)
+      res_string p (resolve_cut (nat_of_int (int_of_string cut)) name_order_oracle p)
   | "wf" :: toks -> string_of_bool (wf (p_prog toks))
   | "order" :: seed :: toks ->
       let p = p_prog toks in
